@@ -9,7 +9,7 @@ import time
 from hypothesis import strategies as st
 
 from vlib import tree
-from vlib.core import Part, Violation, Watchdog, alive, descendants, group_members, kill_leftovers
+from vlib.core import Part, Violation, Watchdog, alive, descendants, kill_leftovers, leftovers
 
 PROPERTY = "C05"
 RULE = (
@@ -190,7 +190,7 @@ class Terminate(Part):
             if left:
                 raise Violation("terminate.child-alive", f"after terminate({case['timeout']}) still running: {left}",
                                 site=left[0][0].split("/")[0])
-            strays = [p for p in set(descendants()) | set(group_members()) if alive(p)]
+            strays = [p for p in leftovers() if alive(p)]
             if strays:
                 raise Violation("terminate.stray-process", f"processes started by this case are still alive: {strays} "
                                 f"(fails={case['fails']})", site=",".join(case["fails"]) or "-")
